@@ -1,19 +1,24 @@
 """C14 — rexpy results depend only on the multiset of examples and the seed; a seeded
 call leaves Python's global PRNG as it found it.
 
-Each case is a *history* in one interpreter: base call, unrelated warm-up extractions
-(fill the module-level regex memo), then the same multiset as list / permuted lists /
-frequency dict (two insertion orders) / Series / list with one example repeated, each
-under several prior PRNG states.  M-PRNG records random.getstate() around every call and
-counts random.sample uses, so "sampling happened" is observed, not assumed.
+Each case runs in two forked children of a shard process that itself never calls rexpy:
+ * the *pristine* child makes the base call as the first rexpy call of its interpreter;
+ * the *history* child first makes unrelated warm-up extractions and extractions of the SAME strings
+   under the other dialects / option settings (priming the regex memo and any other state kept between
+   calls), then extracts the same multiset as list / permuted lists / frequency dict (two insertion
+   orders) / Series / list with one example repeated, each under several prior PRNG states.
+M-PRNG records random.getstate() around every call and counts random.sample uses, so "sampling
+happened" is observed, not assumed.
 """
 import collections
+import json
+import os
 import random
 
 from vt import common
 from vt.gens import rexcases as RC
 from vt.gens import strings as S
-from vt.monitors import contracts, prng
+from vt.monitors import contracts, forkserver, prng
 
 ID = 'C14'
 TIERS = {
@@ -29,7 +34,7 @@ ASSUMPTIONS = [
     "'repeating an example changes nothing' is asserted without pruning options (frequencies legitimately matter to min_strings_per_pattern/max_patterns)",
     'Series input is compared only under default options (pdextract accepts none) and, as pdextract de-duplicates, against the list of distinct strings',
 ]
-REQUIRED_MONITORS = ['prng:seeded_calls', 'prng:sampling_calls_observed', 'groups:compared']
+REQUIRED_MONITORS = ['prng:seeded_calls', 'prng:sampling_calls_observed', 'groups:compared', 'runs:forked']
 REQUIRED_CLASSES = ['seed=1', 'seed=0', 'sampling=1', 'sampling=0']
 
 
@@ -82,37 +87,82 @@ def call(case, xs, form):
     return RC.rex_of(RC.run_extractor(c))
 
 
+def history(case):
+    """Runs inside a forked child: unrelated and related warm-up calls FIRST (they fill the regex memo and
+    any other state rexpy keeps between calls), then the same multiset in every form under every prior
+    PRNG state.  Returns [(variant, prior, rex, state_unchanged, n_sample_calls)]."""
+    prng.install()
+    results = []
+    wr = random.Random(case['warm'])
+    for _ in range(3):
+        w = RC.gen_case(wr, None, allow_none=False)
+        w['form'] = 'list'
+        try:
+            RC.run_extractor(w)
+        except Exception:
+            pass
+    # related calls: the SAME strings under the other dialects / option settings, so that per-character or
+    # per-expression state kept between calls is primed with this case's own alphabet
+    for d in RC.DIALECTS:
+        if d != case['kw']['dialect']:
+            try:
+                RC.run_extractor(dict(case, kw=dict(case['kw'], dialect=d), form='list', prng=None))
+            except Exception:
+                pass
+    try:
+        RC.run_extractor(dict(case, kw=dict(case['kw'], extra_letters=('_' if not case['kw']['extra_letters'] else None),
+                                            variableLengthFrags=not case['kw']['variableLengthFrags']), form='list', prng=None))
+    except Exception:
+        pass
+    for name, xs, form in variants(case):
+        for p in case['priors']:
+            r, ok, ns = prng.around(lambda: call(case, xs, form), p)
+            results.append((name, p, r, ok, ns))
+    return results
+
+
+def pristine(case):
+    """Runs inside another forked child whose interpreter has made no rexpy call yet."""
+    prng.install()
+    r, ok, ns = prng.around(lambda: call(case, case['xs'], 'list'), case['priors'][0])
+    return [('pristine-process', case['priors'][0], r, ok, ns)]
+
+
+def _in_child(fn, case, path):
+    try:
+        out = {'results': fn(case)}
+    except Exception as e:
+        m = common.short_tb(e)
+        out = {'raises': m}
+    with open(path, 'w') as f:
+        json.dump(out, f)
+    return 0
+
+
 def run_case(ctx, case):
     rec = ctx.rec
-    prng.install()
     kw = case['kw']
     seeded = case['seed'] is not None
     eff = RC.effective_sampling(case)
     rec.case(case, nontrivial=len(set(case['xs'])) >= 3,
              cls=[('seed=%d' % seeded,), ('sampling=%d' % eff,), ('dialect=' + kw['dialect'],),
                   ('n=%d' % min(60, 10 * (len(case['xs']) // 10)),)])
-    results = []   # (variant, prior, rex, state_ok, nsample)
-    try:
-        base, ok, ns = prng.around(lambda: call(case, case['xs'], 'list'), case['priors'][0])
-        results.append(('first-call', case['priors'][0], base, ok, ns))
-        # warm-up: unrelated extractions fill rexpy's module-level memo and move the PRNG
-        wr = random.Random(case['warm'])
-        for _ in range(3):
-            w = RC.gen_case(wr, None, allow_none=False)
-            w['form'] = 'list'
-            try:
-                RC.run_extractor(w)
-            except Exception:
-                pass
-        for name, xs, form in variants(case):
-            for p in case['priors']:
-                r, ok, ns = prng.around(lambda: call(case, xs, form), p)
-                results.append((name, p, r, ok, ns))
-    except Exception as e:
-        m = common.short_tb(e)
-        rec.violation('raises', {'case': case, 'mech': {'exc': m['exc'], 'where': m['where']}, 'facts': m})
-        return
-    contracts.drain()
+    results = []
+    for tag, fn in (('pristine', pristine), ('history', history)):
+        path = os.path.join(ctx.scratch, 'c14_%s.json' % tag)
+        if os.path.exists(path):
+            os.unlink(path)
+        res = forkserver.fork_run(lambda: _in_child(fn, case, path), ['c14-' + tag], scratch=ctx.scratch, timeout=300)
+        rec.event('runs:forked')
+        if res.timed_out or not os.path.exists(path):
+            rec.unspecified('watchdog: history did not finish')
+            return
+        out = json.load(open(path))
+        if 'raises' in out:
+            m = out['raises']
+            rec.violation('raises', {'case': case, 'mech': {'exc': m['exc'], 'where': m['where']}, 'facts': m})
+            return
+        results += [tuple(x) for x in out['results']]
     rec.event('groups:compared')
     mech = {'seeded': seeded, 'sampling': eff}
     for name, p, r, ok, ns in results:
@@ -124,7 +174,6 @@ def run_case(ctx, case):
                 break
         if ns:
             rec.event('prng:sampling_calls_observed')
-    # which results are comparable?
     if seeded:
         comparable = results
     else:
@@ -136,14 +185,14 @@ def run_case(ctx, case):
     ref = comparable[0]
     for x in comparable[1:]:
         if x[2] != ref[2]:
-            if x[0] == ref[0] or x[0] == 'list':
-                factor = 'prior-prng-state' if x[1] != ref[1] else 'call-history'
-            elif x[0] == 'first-call':
-                factor = 'call-history'
+            if ref[0] == 'pristine-process' and x[0] == 'list':
+                factor = 'call-history' if x[1] == ref[1] else 'prior-prng-state'
             elif x[0].startswith('repeat'):
                 factor = 'repeated-example'
             elif x[0] in ('dict', 'dict-perm', 'series'):
                 factor = 'form'
+            elif x[0] == 'list':
+                factor = 'prior-prng-state'
             else:
                 factor = 'order'
             used = bool(x[4] or ref[4])
@@ -155,6 +204,11 @@ def run_case(ctx, case):
 
 
 def run_shard(ctx):
+    # the shard process itself never calls rexpy (only imports it), so that every forked child starts
+    # from an interpreter with no call history
+    import pandas  # noqa
+    from tdda.rexpy import rexpy  # noqa
+    forkserver.warm()
     for i in range(ctx.params['cases']):
         run_case(ctx, gen_case(ctx.rng, i))
     if ctx.params.get('big'):
